@@ -149,6 +149,50 @@ func (c *allocCtx) dependsOn(v ssa.Value, sources []ssa.Value) bool {
 	return false
 }
 
+// wrapsBefore: between a source and v there is an addition, multiplication or left shift carried out in an integer type
+// of at most 32 bits: the quantity compared by the guard can wrap around although the file value is huge, so the
+// comparison bounds nothing (count+1 in uint32 is 0 for count = 0xFFFFFFFF).
+func (c *allocCtx) wrapsBefore(v ssa.Value, sources []ssa.Value, depth int) bool {
+	return len(c.wrapOps(v, sources, depth)) > 0
+}
+
+func (c *allocCtx) wrapOps(v ssa.Value, sources []ssa.Value, depth int) []ssa.Value {
+	if depth > 12 {
+		return nil
+	}
+	switch x := v.(type) {
+	case *ssa.BinOp:
+		switch x.Op {
+		case token.ADD, token.MUL, token.SHL:
+			if bits, _, ok := intKind(x.Type()); ok && bits <= 32 && (c.dependsOn(x.X, sources) || c.dependsOn(x.Y, sources)) {
+				// both operands bounded by type to 16 bits cannot wrap 32 bits with one addition; a product can
+				wide := func(o ssa.Value) bool {
+					if k, isC := intConst(o); isC {
+						return k > 1<<15 || k < 0
+					}
+					b, _, ok := intKind(stripConv(o).Type())
+					return !ok || b > 16
+				}
+				if x.Op != token.ADD || wide(x.X) || wide(x.Y) {
+					return []ssa.Value{x}
+				}
+			}
+		}
+		return append(c.wrapOps(x.X, sources, depth+1), c.wrapOps(x.Y, sources, depth+1)...)
+	case *ssa.Convert:
+		return c.wrapOps(x.X, sources, depth+1)
+	case *ssa.ChangeType:
+		return c.wrapOps(x.X, sources, depth+1)
+	case *ssa.Phi:
+		var out []ssa.Value
+		for _, e := range x.Edges {
+			out = append(out, c.wrapOps(e, sources, depth+1)...)
+		}
+		return out
+	}
+	return nil
+}
+
 // sameSource: two loads of the same field path (go/ssa does no CSE).
 func sameSource(a, b ssa.Value) bool {
 	ua, ok1 := a.(*ssa.UnOp)
@@ -275,6 +319,7 @@ func ruleAlloc(p *Prog, r *Report, c allocCfg) {
 				r.Instance(rule, key)
 				// a failing guard on the same source(s)
 				guarded := false
+				wrapNote := ""
 				for _, gb := range f.Blocks {
 					iff := ifOf(gb)
 					if iff == nil {
@@ -290,6 +335,30 @@ func ruleAlloc(p *Prog, r *Report, c allocCfg) {
 						continue
 					}
 					if !ctx.dependsOn(bo.X, srcs) && !ctx.dependsOn(bo.Y, srcs) {
+						continue
+					}
+					// a wrapping operation invalidates the comparison unless the allocation is sized by the wrapped value itself
+					var wraps []ssa.Value
+					if ctx.dependsOn(bo.X, srcs) {
+						wraps = append(wraps, ctx.wrapOps(bo.X, srcs, 0)...)
+					}
+					if ctx.dependsOn(bo.Y, srcs) {
+						wraps = append(wraps, ctx.wrapOps(bo.Y, srcs, 0)...)
+					}
+					escapes := false
+					for _, w := range wraps {
+						through := false
+						for _, sz := range sizes {
+							if sz != nil && derivesFrom(sz, func(v ssa.Value) bool { return v == w }, 0) {
+								through = true
+							}
+						}
+						if !through {
+							escapes = true
+						}
+					}
+					if escapes {
+						wrapNote = "; a comparison exists but its operand is computed with an addition, product or shift in an integer of at most 32 bits, which wraps for large file values"
 						continue
 					}
 					for _, exhTrue := range []bool{true, false} {
@@ -313,7 +382,7 @@ func ruleAlloc(p *Prog, r *Report, c allocCfg) {
 						ss = append(ss, s.String()+" at "+p.Pos(instrPos(s.(ssa.Instruction))))
 					}
 					sort.Strings(ss)
-					r.Bad(rule, key, p.IPos(in), fmt.Sprintf("%s allocates a buffer whose size is a 32/64-bit value taken from the file (%s) without a bound test whose failing edge leaves with an error: a few bytes of input can request gigabytes", p.FnName(f), strings.Join(ss, "; ")))
+					r.Bad(rule, key, p.IPos(in), fmt.Sprintf("%s allocates a buffer whose size is a 32/64-bit value taken from the file (%s) without a bound test whose failing edge leaves with an error: a few bytes of input can request gigabytes%s", p.FnName(f), strings.Join(ss, "; "), wrapNote))
 				}
 			}
 		}
@@ -334,8 +403,15 @@ func runC09(p *Prog, r *Report) {
 	ruleDiv(p, r, []string{"font", "font/opentype", "font/opentype/tables", "font/cff", "font/cff/interpreter"}, reviewedDivs(), 5)
 	r.Explain = append(r.Explain, "R-COUNT: for every signed integer parameter that sizes a make in its function without a sign test there, every in-module call site passes an argument that is provably non-negative (conversion from an unsigned type, len/cap, constants, sums/products of those, a difference guarded by the comparison that makes it non-negative, or a parameter for which the same holds at all its call sites).")
 	ruleCount(p, r, []string{"font/opentype/tables", "font/opentype", "font/cff", "font"}, 10)
+	r.Explain = append(r.Explain, "R-GEN (P-LIN): in the five font-reading packages, every index, slice and binary.*.UintN access to a []byte follows from the length tests that dominate it — upper bounds and non-negative lower bounds — using linear facts only (failing edges of comparisons, loop invariants, lengths of made slices, quotients by constants, `read <= len(arg)` post-conditions and constant length preconditions checked at every call site, fields that neither the function nor its callees write, the interprocedural sign prover). Functions with an access that needs a non-linear or cross-function argument are listed, with the reason, in sa/rgen_tables.go and reported as not claimed.")
+	rgenPk := map[string]bool{}
+	for _, k := range []string{"font/opentype/tables", "font/cff", "font/opentype", "font", "font/cff/interpreter"} {
+		rgenPk[p.pkgPath(k)] = true
+	}
+	ruleGen(p, r, "R-GEN", func(f *ssa.Function) bool { return fnPkg(f) != nil && rgenPk[fnPkg(f).Path()] }, rgenNotClaimed, 300)
 	r.Assumptions = append(r.Assumptions,
-		"termination of loops and absence of index-out-of-range panics in the ~9000 lines of hand-written table processing are NOT decided",
+		"R-GEN models int as 64 bits and does not model overflow of offset arithmetic; accesses to slices of other element types (parsed records) are NOT covered",
+		"termination of loops and absence of index-out-of-range panics on parsed (non-byte) structures in the ~9000 lines of hand-written table processing are NOT decided",
 		"allocation sizes that are products of 16-bit values are treated as bounded by type")
 	r.NotDecided = append(r.NotDecided, "no out-of-range access in hand-written table code", "time/memory proportionality beyond recursion and allocation guards (e.g. CFF subroutine fan-out, cmap4 segment amplification)")
 }
@@ -344,10 +420,11 @@ func controlsC09(cp *Prog, r *Report) {
 	controlsRec(cp, r)
 	expectControl(r, "R-ALLOC", func(cr *Report) {
 		ruleAlloc(cp, cr, allocCfg{pkgs: []string{"rd"}, dataPkgs: []string{"rd"}, floor: 2})
-	}, "(*rd.Loader).tableBad", "rd.parseBad")
+	}, "(*rd.Loader).tableBad", "rd.parseBad", "rd.parseWrapBad")
 	expectControl(r, "R-COUNT", func(cr *Report) { ruleCount(cp, cr, []string{"rd"}, 3) }, "rd.parseN(count)<-rd.callBadDiff")
 	expectControl(r, "R-LOOP", func(cr *Report) { ruleLoop(cp, cr, []string{"rd"}) }, "rd.followBad/loop@g")
 	expectControl(r, "R-DIV", func(cr *Report) { ruleDiv(cp, cr, []string{"rd"}, nil, 3) }, "rd.divSwitchBad/kind", "rd.divBad/ppem")
+	controlsC16(cp, r)
 }
 
 // ---- R-COUNT ------------------------------------------------------------------------------------------------------
@@ -397,6 +474,7 @@ type nonNegCtx struct {
 	memoP  map[*ssa.Parameter]int // 0 unknown, 1 in progress, 2 yes, 3 no
 	memoF  map[*types.Var]int
 	stores map[*types.Var][]*ssa.Store
+	inPhi  map[*ssa.Phi]bool
 }
 
 // nonNeg: the value is provably >= 0 at this point.
@@ -465,6 +543,16 @@ func (c *nonNegCtx) nonNeg0(v ssa.Value, at ssa.Instruction, depth int) bool {
 		}
 		return false
 	case *ssa.Phi:
+		// induction: while the edges of a phi are examined the phi itself is assumed non-negative (sums, products and
+		// constants keep the sign; wrap-around of 64-bit counters is not modelled)
+		if c.inPhi == nil {
+			c.inPhi = map[*ssa.Phi]bool{}
+		}
+		if c.inPhi[x] {
+			return true
+		}
+		c.inPhi[x] = true
+		defer delete(c.inPhi, x)
 		for i, e := range x.Edges {
 			if c.nonNeg(e, at, depth+1) {
 				continue
@@ -797,7 +885,7 @@ func (c *nonNegCtx) smallShift(n ssa.Value, at ssa.Instruction) bool {
 
 func reviewedDivs() map[string]string {
 	return map[string]string{
-		"(*font/opentype/tables.AATStateTable).parseEntries/.StateSize":                  "the generated parsers call parseStates first, which rejects StateSize < 4, and return on its error before parseEntries runs",
+		"(*font/opentype/tables.AATStateTable).parseEntries/.StateSize":          "the generated parsers call parseStates first, which rejects StateSize < 4, and return on its error before parseEntries runs",
 		"(*harfbuzz.complexShaperArabic).postprocessGlyphs/nCopies+1*nRepeating": "guarded by nRepeating > 0, and nCopies was just incremented from a value >= 0 (it is 0 or a/b-1 with a > b > 0)",
 	}
 }
